@@ -104,7 +104,7 @@ def _force_field():
     return _FF["ff"]
 
 
-def _collect(res, unit, outcomes, cap_per_key=2, cap=25):
+def _collect(res, unit, outcomes, cap_per_key=2, cap=25, count_in_text=False):
     """outcomes: iterable of (job, nontrivial, bad, key).  Fills counters; one violation per class first, <= cap in total."""
     by_key = {}
     for job, nontrivial, bad, key in outcomes:
@@ -120,7 +120,8 @@ def _collect(res, unit, outcomes, cap_per_key=2, cap=25):
             if rank < len(by_key[key]) and len(chosen) < cap:
                 chosen.append((key,) + by_key[key][rank])
     for key, job, bad in chosen:
-        res.violations.append(Violation(unit, f"{_j(job)}: {bad}"[:900], inputs={"job": _j(job)}, detail=bad, replayed=True, finding_key=key))
+        head = f"[{len(by_key[key])} world(s) in this class] " if count_in_text else ""
+        res.violations.append(Violation(unit, f"{head}{_j(job)}: {bad}"[:900], inputs={"job": _j(job)}, detail=bad, replayed=True, finding_key=key))
     if by_key:
         res.samples.append({"violations_per_class": {k: len(v) for k, v in sorted(by_key.items())}})
 
@@ -1104,12 +1105,390 @@ def c20_eval(scn, root, seed):
     return reached, None, None, note
 
 
+# ------------------------------------------------------------------------------------------------------
+# C20, thorough tier only: more inputs per program, more states / spellings of the output path, and a failure injected
+# at every line event and at every call made directly by the top-level function (sys.settrace), besides the stage table
+# ------------------------------------------------------------------------------------------------------
+
+OWN_FF = ("[ defaults ]\n1 2 yes 1.0 1.0\n\n[ atomtypes ]\nP4 72.0 0.0 A 0.47 4.5\nC1 72.0 0.0 A 0.47 3.5\nSC 45.0 0.0 A 0.41 2.0\n")
+OWN_MOLS = ("[ moleculetype ]\nCH 1\n[ atoms ]\n1 C1 1 RA A 1 0.0\n2 C1 2 RA A 2 0.0\n3 C1 3 RB B1 3 0.0\n4 SC 3 RB B2 4 0.0\n"
+            "[ bonds ]\n1 2 1 0.45 5000\n2 3 1 0.45 5000\n3 4 1 0.30 5000\n\n"
+            "[ moleculetype ]\nW 1\n[ atoms ]\n1 P4 1 W W 1 0.0\n\n"
+            "[ moleculetype ]\nLG 1\n[ atoms ]\n1 SC 1 LG L 1 0.0\n\n")
+OWN_ATOMS = {"own": 4 + 2, "own-lig": 4 + 2 + 1}          # CH 1, W 2 (+ LG 1)
+OWN_VOLUMES = "[ volumes ]\nRA 0.45\nRB 0.5\nW 0.47\nLG 0.41\n"
+
+# variant -> (what the input states: used by the completeness oracle)
+DEEP_INPUTS = {
+    "gen_params": {
+        "seq": dict(name="PEO", residues=3), "seqfile": dict(name="PEO", residues=3), "seqfile-json": dict(name="PEO", residues=3),
+        "lib-protein": dict(name="prot", residues=3), "mods": dict(name="prot", residues=3), "protter": dict(name="prot", residues=3),
+        "dsdna-fasta": dict(name="dna", residues=8), "dsdna-seq": dict(name="dna", residues=6),
+    },
+    "gen_coords": {
+        "build": dict(atoms=21), "meta-coordinates": dict(atoms=21), "pmma-bld": dict(atoms=21),
+        "own-box": dict(atoms=6), "own-c": dict(atoms=6), "own-bld-start": dict(atoms=6), "own-dens-grid": dict(atoms=6), "own-lig": dict(atoms=7),
+        "own-mc-res": dict(atoms=6),
+    },
+    "gen_seq": {"strings": dict(residues=6), "plain": dict(residues=4), "random-mix": dict(residues=5), "from-file": dict(residues=4)},
+}
+# (is the output path occupied, indices N of existing #name.N# backups)
+PATH_CONTENTS = {"absent": (False, ()), "present": (True, ()), "present+1": (True, (1,)), "present+1+2": (True, (1, 2)), "present+2(gap)": (True, (2,)),
+                 "absent+1": (False, (1,))}
+# how the output path is spelled: absolute / relative to the working directory, in the directory itself / in a sub-directory
+PATH_SPELLINGS = ("abs", "rel", "sub-abs", "sub-rel")
+OLD = b"PREVIOUS CONTENT OF THE OUTPUT PATH\n"
+
+
+def _backup_bytes(idx):
+    return b"AN OLDER BACKUP number %d\n" % idx
+
+
+def _write_inputs(prog, variant, work):
+    """own input files of the variant under work/in (the test data of the tree are used read-only where named)"""
+    ind = work / "in"
+    ind.mkdir()
+    (ind / "seq.txt").write_text("PEO PEO\nPEO\n")
+    if prog == "gen_params" and variant == "seqfile-json":
+        import networkx as nx
+        from networkx.readwrite import json_graph
+        graph = nx.Graph()
+        for i in range(3):
+            graph.add_node(i, resname="PEO", resid=i + 1)
+        graph.add_edges_from([(0, 1), (1, 2)])
+        with open(ind / "seq.json", "w") as handle:
+            json.dump(json_graph.node_link_data(graph), handle)
+    if prog == "gen_params" and variant == "dsdna-fasta":
+        (ind / "d.fasta").write_text(">DNA\nACGT\n")
+    if prog == "gen_coords" and variant.startswith("own"):
+        (ind / "ff.itp").write_text(OWN_FF)
+        (ind / "mols.itp").write_text(OWN_MOLS)
+        mols = "CH 1\nW 2\n" + ("LG 1\n" if variant == "own-lig" else "")
+        (ind / "sys.top").write_text('#include "ff.itp"\n#include "mols.itp"\n\n[ system ]\nown\n\n[ molecules ]\n' + mols)
+        rows = [(1, "RA", "A", (0.5, 0.5, 0.5)), (2, "RA", "A", (0.95, 0.5, 0.5)), (3, "RB", "B1", (1.4, 0.5, 0.5)), (3, "RB", "B2", (1.4, 0.8, 0.5))]
+        gro = ["supplied", str(len(rows))] + ["%5d%-5s%5s%5d%8.3f%8.3f%8.3f" % (r, rn, an, i + 1, *xyz) for i, (r, rn, an, xyz) in enumerate(rows)] + ["4.0 4.0 4.0"]
+        (ind / "in.gro").write_text("\n".join(gro) + "\n")
+        cen = [(1, "RA", "CG", (0.5, 0.5, 0.5)), (1, "W", "CG", (2.5, 2.5, 2.5))]
+        gro = ["centres", str(len(cen))] + ["%5d%-5s%5s%5d%8.3f%8.3f%8.3f" % (r, rn, an, i + 1, *xyz) for i, (r, rn, an, xyz) in enumerate(cen)] + ["4.0 4.0 4.0"]
+        (ind / "cen.gro").write_text("\n".join(gro) + "\n")
+        (ind / "opts.bld").write_text("[ molecule ]\nCH 0 1\n[ sphere ]\nRA 1 3 in 2.0 2.0 2.0 1.6\n" + OWN_VOLUMES)
+        (ind / "vol.bld").write_text(OWN_VOLUMES)
+        rng = random.Random(5)
+        (ind / "grid.dat").write_text("\n".join(" ".join(repr(round(rng.uniform(0.3, 2.4), 3)) for _ in range(3)) for _ in range(30)) + "\n")
+
+
+def _call_program_deep(prog, variant, work, out):
+    """the programs with the keyword set of the command line; `out` as the user spelled it"""
+    import numpy as np
+    test_data = Path(load("polyply").TEST_DATA)
+    ind = work / "in"
+    if prog == "gen_params":
+        module = load("polyply.src.gen_itp")
+        peo = dict(name="PEO", outpath=out, inpath=[test_data / "gen_params" / "input" / "PEO.martini.3.itp"], lib=None, dsdna=False, mods=[], protter=False)
+        if variant == "seq":
+            return module.gen_params(seq=["PEO:3"], seq_file=None, **peo)
+        if variant == "seqfile":
+            return module.gen_params(seq=None, seq_file=ind / "seq.txt", **peo)
+        if variant == "seqfile-json":
+            return module.gen_params(seq=None, seq_file=ind / "seq.json", **peo)
+        prot = dict(name="prot", outpath=out, inpath=[], lib=["martini3"], dsdna=False, seq=["GLY:1", "ALA:2"], seq_file=None)
+        if variant == "lib-protein":
+            return module.gen_params(mods=[], protter=False, **prot)
+        if variant == "mods":
+            return module.gen_params(mods=[["GLY1", "N-ter"], ["ALA3", "C-ter"]], protter=False, **prot)
+        if variant == "protter":
+            return module.gen_params(mods=[], protter=True, **prot)
+        if variant == "dsdna-fasta":
+            return module.gen_params(name="dna", outpath=out, inpath=[], lib=["martini2"], dsdna=True, mods=[], protter=False, seq=None, seq_file=ind / "d.fasta")
+        if variant == "dsdna-seq":
+            return module.gen_params(name="dna", outpath=out, inpath=[], lib=["martini2"], dsdna=True, mods=[], protter=False, seq=["DA5:1", "DC:1", "DG3:1"], seq_file=None)
+    if prog == "gen_coords":
+        module = load("polyply.src.gen_coords")
+        tt = test_data / "topology_test"
+        if variant == "build":
+            return module.gen_coords(toppath=tt / "system.top", outpath=out, name="test", box=np.array([10.0, 10.0, 10.0]))
+        if variant == "meta-coordinates":
+            return module.gen_coords(toppath=tt / "system.top", outpath=out, name="test", coordpath_meta=tt / "cog.gro", box=np.array([11.0, 11.0, 11.0]))
+        if variant == "pmma-bld":
+            return module.gen_coords(toppath=tt / "system.top", outpath=out, name="test", build=[tt / "test.bld"], box=np.array([10.0, 10.0, 10.0]))
+        own = dict(toppath=ind / "sys.top", outpath=out, name="own", maxiter=200)
+        box = [np.array("4.0", dtype=float)] * 3
+        if variant == "own-box":
+            return module.gen_coords(box=box, **own)
+        if variant == "own-c":
+            return module.gen_coords(coordpath=ind / "in.gro", **own)
+        if variant == "own-mc-res":
+            return module.gen_coords(coordpath_meta=ind / "cen.gro", build_res=["RB"], **dict(own))
+        if variant == "own-bld-start":
+            return module.gen_coords(box=box, build=[ind / "opts.bld"], start=["CH#0-RA#2"], **own)
+        if variant == "own-dens-grid":
+            return module.gen_coords(density=30.0, grid=str(ind / "grid.dat"), **own)
+        if variant == "own-lig":
+            return module.gen_coords(box=box, build=[ind / "vol.bld"], ligands=[["CH#0-RA#1", "LG#3"]], **own)
+    if prog == "gen_seq":
+        module = load("polyply.src.gen_seq")
+        if variant == "strings":
+            return module.gen_seq(name="m", outpath=out, seq=["A", "B"], inpath=[], macro_strings=["A:3:1:PEO-1.0", "B:2:2:PS-1.0"], from_file=None,
+                                  connects=["0:1:2-0"], modifications=["0:OH"], tags=["1:chiral:R-1.0"])
+        if variant == "plain":
+            return module.gen_seq(name="m", outpath=out, seq=["A"], inpath=[], macro_strings=["A:4:1:PEO-1.0"], from_file=None, connects=[], modifications=[], tags=[])
+        if variant == "random-mix":
+            return module.gen_seq(name="m", outpath=out, seq=["A", "B"], inpath=[], macro_strings=["A:3:1:PS-0.5,PEO-0.5", "B:2:1:PEO-1.0"], from_file=None,
+                                  connects=["0:1:2-0"], modifications=[], tags=["0:chiral:R-0.5,S-0.5"])
+        if variant == "from-file":
+            return module.gen_seq(name="m", outpath=out, seq=["A", "B"], inpath=[test_data / "gen_params" / "input" / "PEO.martini.3.itp"],
+                                  macro_strings=["B:3:1:PS-1.0"], from_file=["A:PEO"], connects=["0:1:0-0"], modifications=[], tags=[])
+    raise RuntimeError(f"unknown variant {prog}/{variant}")
+
+
+def spec_complete_deep(prog, variant, data):
+    """None or why the bytes are not a complete output for what the input of the variant states (name, residue / atom count)"""
+    want = DEEP_INPUTS[prog][variant]
+    try:
+        text = data.decode()
+    except UnicodeDecodeError as exc:
+        return f"not text: {exc}"
+    if not text.endswith("\n") and prog != "gen_seq":
+        return "the last line is not terminated"
+    if prog == "gen_params":
+        import vermouth
+        ff = vermouth.forcefield.ForceField("check")
+        try:
+            vermouth.gmx.itp_read.read_itp(text.splitlines(), ff)
+        except Exception as exc:                     # noqa: BLE001
+            return f"does not parse as itp: {exc}"
+        if list(ff.blocks) != [want["name"]]:
+            return f"the itp holds moleculetypes {list(ff.blocks)}, requested {want['name']}"
+        block = ff.blocks[want["name"]]
+        resids = sorted({block.nodes[n]["resid"] for n in block.nodes})
+        if resids != list(range(1, want["residues"] + 1)):
+            return f"the itp holds residues {resids}, the input states {want['residues']} residues"
+        if want["residues"] > 1 and not block.interactions.get("bonds") and not block.interactions.get("constraints"):
+            return "no bonds or constraints in the itp"
+        return None
+    if prog == "gen_coords":
+        lines = text.split("\n")[:-1]
+        try:
+            natoms = int(lines[1])
+        except (ValueError, IndexError):
+            return "no atom count on line 2"
+        if natoms != want["atoms"] or len(lines) != natoms + 3:
+            return f"{natoms} atoms announced, {len(lines) - 3} atom lines, {want['atoms']} atoms in the topology"
+        try:
+            box = [float(x) for x in lines[-1].split()]
+            coords = [[float(line[20 + 8 * d: 28 + 8 * d]) for d in range(3)] for line in lines[2:-1]]
+        except ValueError:
+            return "atom or box line does not parse"
+        if len(box) < 3 or any(c != c or abs(c) == float("inf") for xyz in coords for c in xyz):
+            return "box incomplete or non-finite coordinates"
+        return None
+    try:
+        doc = json.loads(text)
+    except ValueError as exc:
+        return f"not complete JSON: {exc}"
+    if len(doc.get("nodes", [])) != want["residues"]:
+        return f"{len(doc.get('nodes', []))} residues in the JSON, {want['residues']} stated"
+    return None
+
+
+def _write_statement_lines(func):
+    """gen_seq writes with `with open(outpath, "w")`: absolute (first, last) line of that statement, from the AST of the function"""
+    import ast
+    import textwrap
+    tree = ast.parse(textwrap.dedent(inspect.getsource(func)))
+    first = func.__code__.co_firstlineno
+    for node in ast.walk(tree):
+        if isinstance(node, ast.With):
+            for item in node.items:
+                call = item.context_expr
+                if isinstance(call, ast.Call) and isinstance(call.func, ast.Name) and call.func.id == "open":
+                    return first + node.lineno - 1, first + node.end_lineno - 1
+    return None
+
+
+class KthEvent:
+    """sys.settrace tracer: numbers the line events of the frame of the top-level function and the call events of frames it calls
+    directly (a generator resumed by it counts), and raises Injected at event number k (k=None: only records).
+    phase: 'pre' until writing starts, 'writing', 'post' after it returned.  Writing starts when DeferredFileWriter.write is
+    entered (an injection AT its entry is still 'pre'), for gen_seq when the `with open(outpath, "w")` statement starts to run"""
+
+    def __init__(self, func, k, with_lines):
+        self.code, self.k, self.with_lines = func.__code__, k, with_lines
+        self.top, self.events, self.phase, self.injected, self.done = None, [], "pre", None, False
+
+    def _event(self, desc):
+        idx = len(self.events)
+        self.events.append((desc, self.phase))
+        if self.k is not None and idx == self.k:
+            self.injected = (desc, self.phase)
+            self.done = True
+            raise Injected(f"event {idx}: {desc}")
+
+    def __call__(self, frame, event, arg):
+        if self.done:
+            return None
+        if self.top is None:
+            if frame.f_code is self.code:
+                self.top = frame
+                return self._local_top
+            return None
+        if frame.f_back is self.top:
+            code = frame.f_code
+            if code.co_name == "__del__":        # a finalizer the collector happens to run here: not a call of the function, and exceptions in it are ignored by the interpreter
+                return None
+            self._event(f"call {code.co_qualname} (line {self.top.f_lineno - self.code.co_firstlineno} of the function)")
+            if code.co_name == "write" and code.co_filename.endswith("file_writer.py"):
+                self.phase = "writing"
+                return self._local_write
+        return None
+
+    def _local_top(self, frame, event, arg):
+        if event == "line":
+            self._event(f"line {frame.f_lineno - self.code.co_firstlineno} of the function")
+            if self.with_lines and frame.f_lineno == self.with_lines[0]:
+                self.phase = "writing"
+        elif event == "return":
+            self.done = True
+        return self._local_top
+
+    def _local_write(self, frame, event, arg):
+        if event == "return":
+            self.phase = "post"
+        return self._local_write
+
+
+def _place(work, prog, contents, spelling):
+    """creates the state of the output path; returns (path as handed to the program, name relative to work, directory relative to work)"""
+    present, backups = PATH_CONTENTS[contents]
+    name = OUT_NAME[prog]
+    sub = "results/run1" if spelling.startswith("sub") else ""
+    directory = work / sub
+    directory.mkdir(parents=True, exist_ok=True)
+    if present:
+        (directory / name).write_bytes(OLD)
+    for idx in backups:
+        (directory / f"#{name}.{idx}#").write_bytes(_backup_bytes(idx))
+    handed = (directory / name) if spelling.endswith("abs") else Path(sub) / name if sub else Path(name)
+    return handed, os.path.join(sub, name) if sub else name, sub
+
+
+def c20_eval_deep(scn, root, seed):
+    """scn: dict(prog, variant, inject=None | ("stage", index, when) | ("trace", k) | ("count",), contents, spelling)
+    -> (reached, bad, key, note)   (inject ("count",): -> list of the events of an uninjected traced run)"""
+    import numpy as np
+    import re
+    prog, variant, inject = scn["prog"], scn["variant"], scn["inject"]
+    modname, stages = STAGES[prog]
+    module = load(modname)
+    func = getattr(module, "gen_params" if prog == "gen_params" else prog)
+    writer = load("vermouth.file_writer").DeferredFileWriter
+    work = Path(tempfile.mkdtemp(dir=root))
+    _write_inputs(prog, variant, work)
+    handed, rel_name, sub = _place(work, prog, scn["contents"], scn["spelling"])
+    present, _ = PATH_CONTENTS[scn["contents"]]
+    before = _snapshot(work)
+    cwd = os.getcwd()
+    os.chdir(work)
+    random.seed(seed)
+    np.random.seed(seed % (2 ** 32))
+    writer().close()
+    hits, undo, raised, tracer = [], [], None, None
+    try:
+        if inject and inject[0] == "stage":
+            _, kind, where = stages[inject[1]]
+            undo = _rebind(module, kind, where, inject[2], hits)
+        if inject and inject[0] in ("trace", "count"):
+            tracer = KthEvent(func, inject[1] if inject[0] == "trace" else None, _write_statement_lines(func) if prog == "gen_seq" else None)
+            sys.settrace(tracer)
+        try:
+            _call_program_deep(prog, variant, work, handed)
+        except Exception as exc:                     # noqa: BLE001
+            raised = exc
+        finally:
+            sys.settrace(None)
+    finally:
+        for owner, attr, original in reversed(undo):
+            setattr(owner, attr, original)
+        writer().close()
+        os.chdir(cwd)
+    after = _snapshot(work)
+    shutil.rmtree(work, ignore_errors=True)
+    if inject and inject[0] == "count":
+        if raised is not None:
+            return ("error", f"{type(raised).__name__}: {raised}")
+        return ("events", tracer.events)
+    if inject is None:
+        label, when, reached, phase = "no injection", "-", raised is None, "post"
+    elif inject[0] == "stage":
+        label, when, reached = stages[inject[1]][0], inject[2], bool(hits)
+        phase = "post" if (stages[inject[1]][1] == "single" and when == "after") or not reached else "pre"     # never reached = an uninjected run
+    else:
+        reached = tracer.injected is not None
+        label, phase = (tracer.injected if reached else ("never reached", "post"))
+        when = "at"
+    if raised is not None and not isinstance(raised, Injected):
+        return reached, f"valid input failed with {type(raised).__name__}: {raised} ({label}, {when})", "c20-valid-input-failed", None
+    if reached and inject is not None and raised is None:
+        return reached, f"the exception injected {when} '{label}' did not end the program", "c20-injected-failure-swallowed", None
+    where = f"output path {scn['contents']}, spelled {scn['spelling']}"
+
+    def touched():
+        created = sorted(set(after) - set(before))
+        gone = sorted(set(before) - set(after))
+        changed = sorted(k for k in set(after) & set(before) if after[k] != before[k])
+        return f"created {created}, removed {gone}, modified {changed} (sizes now { {k: len(after[k]) for k in created + changed} })"
+
+    def success_state():
+        """None or why `after` is not: complete output at the path, the previous file under ONE new #name.N# in the same directory, nothing else touched"""
+        if rel_name not in after:
+            return f"c20-{prog}-no-output", f"the program returned but {rel_name} does not exist; {touched()}"
+        bad = spec_complete_deep(prog, variant, after[rel_name])
+        if bad:
+            return f"c20-{prog}-incomplete-output", f"output after success is not complete: {bad}"
+        rest_a = {k: v for k, v in after.items() if k != rel_name}
+        rest_b = {k: v for k, v in before.items() if k != rel_name}
+        if prog == "gen_seq":
+            if rest_a != rest_b:
+                return "c20-gen_seq-other-files-touched", f"files other than the output changed: {touched()}"
+            return None
+        new = sorted(set(rest_a) - set(rest_b))
+        if any(rest_a.get(k) != v for k, v in rest_b.items()):
+            return f"c20-{prog}-backup", f"with {where}: existing files (inputs / older backups) were removed or modified: {touched()}"
+        if not present:
+            if new:
+                return f"c20-{prog}-backup", f"with {where}: nothing to back up, yet new files {new}"
+            return None
+        pattern = re.compile(re.escape(os.path.join(sub, "#" + OUT_NAME[prog] + ".")) + r"([1-9][0-9]*)#$")
+        if len(new) != 1 or not pattern.match(new[0]) or rest_a[new[0]] != OLD:
+            return f"c20-{prog}-backup", (f"with {where}: the previous file is not kept under exactly one new GROMACS-style name #{OUT_NAME[prog]}.N# next to the output: "
+                                        f"new files {new}; listing {sorted(after)}")
+        return None
+
+    if phase == "pre":
+        if after != before:
+            return reached, f"failure {when} '{label}' with {where}: {touched()}", f"c20-{prog}-output-touched-before-success", None
+        return reached, None, None, None
+    if phase == "writing":
+        # not a stage before writing (gen_seq: json.dump inside `with open(outpath, "w")`): only 'nothing else is touched' is checked
+        rest_a = {k: v for k, v in after.items() if k != rel_name}
+        rest_b = {k: v for k, v in before.items() if k != rel_name}
+        if rest_a != rest_b:
+            return False, f"failure while writing ({label}) with {where}: other files changed: {touched()}", f"c20-{prog}-other-files-touched", None
+        return False, None, None, "gen_seq: failures injected after open(outpath, 'w') started are evaluated for side effects on OTHER files only (counted trivial)"
+    got = success_state()
+    if got is not None and raised is not None and after == before:
+        got = None          # a failure after the write statement: untouched-or-complete is what the statement supports
+    if got is not None:
+        return reached, got[1], got[0], None
+    return reached, None, None, None
+
+
 def c20_worker(arg):
     root, batch = arg
     out = []
     for scn, seed in batch:
         try:
-            out.append(c20_eval(scn, root, seed))
+            out.append(c20_eval_deep(scn, root, seed) if isinstance(scn, dict) else c20_eval(scn, root, seed))
         except Exception as exc:                     # noqa: BLE001 -- harness trouble must be visible, not silent
             out.append((False, f"harness: {type(exc).__name__}: {exc}", "c20-harness", None))
     return out
@@ -1127,28 +1506,103 @@ def c20_scenarios(ctx):
     return scns
 
 
+SLOW_VARIANTS = ("build", "meta-coordinates", "pmma-bld")      # the PMMA test topology (template generation for 7-atom residues)
+ALL_PLACES = [(c, sp) for sp in PATH_SPELLINGS for c in PATH_CONTENTS]
+TRACE_PLACES = [(c, "abs") for c in PATH_CONTENTS] + [(c, sp) for sp in PATH_SPELLINGS[1:] for c in ("absent", "present+1")]
+STAGE_PLACES = [("present+1+2", "abs"), ("present", "sub-rel"), ("absent", "rel"), ("present+2(gap)", "sub-abs"), ("absent+1", "sub-rel"), ("present+1", "rel")]
+FEW_PLACES = [("present+1", "abs"), ("absent", "sub-rel"), ("present+2(gap)", "rel"), ("present", "sub-abs")]
+
+
+def c20_deep_scenarios(counts):
+    """counts: {(prog, variant): number of trace events of the uninjected run}"""
+    scns = []
+    for prog, variants in DEEP_INPUTS.items():
+        nstages = len(STAGES[prog][1])
+        for variant in variants:
+            slow = variant in SLOW_VARIANTS
+            for contents, spelling in ALL_PLACES:
+                scns.append(dict(prog=prog, variant=variant, inject=None, contents=contents, spelling=spelling))
+            for contents, spelling in (FEW_PLACES if slow else STAGE_PLACES):
+                for si in range(nstages):
+                    for when in ("before", "after"):
+                        scns.append(dict(prog=prog, variant=variant, inject=("stage", si, when), contents=contents, spelling=spelling))
+            for contents, spelling in (FEW_PLACES if slow else TRACE_PLACES):
+                for k in range(counts[(prog, variant)]):
+                    scns.append(dict(prog=prog, variant=variant, inject=("trace", k), contents=contents, spelling=spelling))
+    return scns
+
+
+def _c20_cost(scn):
+    """rough relative cost, for balancing the pool"""
+    if not isinstance(scn, dict):
+        return (2.0 if scn[0] == "gen_coords" else 0.1) * (1 + (scn[2] if scn[2] is not None else 99))
+    base = 30.0 if scn["variant"] in SLOW_VARIANTS else 1.0
+    inj = scn["inject"]
+    frac = 1.0 if inj is None else (inj[1] + 1) / 16.0 if inj[0] == "stage" else (inj[1] + 1) / 90.0
+    return base * frac
+
+
 def run_c20(ctx, res):
     scns = c20_scenarios(ctx)
     # the slow ones (late gen_coords stages) first so the pool is balanced
     order = sorted(range(len(scns)), key=lambda i: (scns[i][0] != "gen_coords", -(scns[i][2] if scns[i][2] is not None else 99)))
     jobs = [(scns[i], ctx.seed + i) for i in order]
     root = tempfile.mkdtemp(dir="/var/tmp", prefix="bseq-c20-")
+    deep_text, counts = "", {}
     try:
+        if ctx.thorough:
+            keys = [(prog, variant) for prog, variants in DEEP_INPUTS.items() for variant in variants]
+            counted = _pool_run(c20_worker, [(dict(prog=p, variant=v, inject=("count",), contents="absent", spelling="abs"), ctx.seed) for p, v in keys], root, 1)
+            for key, got in zip(keys, counted):
+                if got[0] != "events":
+                    raise RuntimeError(f"c20: the traced uninjected run of {key} did not complete: {got}")
+                counts[key] = len(got[1])
+            deep = c20_deep_scenarios(counts)
+            deep.sort(key=lambda scn: -_c20_cost(scn))
+            # round-robin over the sorted list so that every batch of 8 holds scenarios of every cost class
+            nb = (len(deep) + 7) // 8
+            deep = [deep[i] for b in range(nb) for i in range(b, len(deep), nb)]
+            djobs = [(scn, ctx.seed + 1000 + i) for i, scn in enumerate(deep)]
+            douts = _pool_run(c20_worker, djobs, root, 8)
         outs = _pool_run(c20_worker, jobs, root, 1)
+        if ctx.thorough:
+            jobs, outs = jobs + djobs, outs + douts
     finally:
         shutil.rmtree(root, ignore_errors=True)
     notes = set()
     reached_stages, all_stages = set(), set()
     outcomes = []
+    kinds = {}
     for (scn, _), (reached, bad, key, note) in zip(jobs, outs):
         outcomes.append((scn, reached, bad, key))
         if note:
             notes.add(note)
+        if isinstance(scn, dict):
+            kind = "uninjected" if scn["inject"] is None else scn["inject"][0]
+            kinds[kind] = kinds.get(kind, 0) + 1
+            if kind == "stage":
+                all_stages.add((scn["prog"], scn["inject"][1]))
+                if reached:
+                    reached_stages.add((scn["prog"], scn["inject"][1]))
+            continue
         if scn[2] is not None:
             all_stages.add((scn[0], scn[2]))
             if reached:
                 reached_stages.add((scn[0], scn[2]))
-    _collect(res, "c20-outputs-after-success", outcomes)
+    _collect(res, "c20-outputs-after-success", outcomes, count_in_text=ctx.thorough)
+    if ctx.thorough:
+        per = {f"{p}/{v}": n for (p, v), n in counts.items()}
+        deep_text = (f"  || THOROUGH, in addition ({sum(kinds.values())} scenarios): inputs per program { {p: list(v) for p, v in DEEP_INPUTS.items()} } "
+                     "(gen_params: -seq, -seqf .txt/.json, -lib martini3 protein with/without -mods and protein termini, -dsdna from .fasta and from -seq; gen_coords: PMMA test topology from scratch / "
+                     "-mc / -b template+volumes, own 3-type topology with -box, -c, -mc with -res, -b sphere restraint + -start, -dens + -grid, -lig with [ volumes ]; gen_seq: macros with connect/terminal/label, "
+                     f"plain, random residue mix + random label, -from_file macro); output path = 6 contents {list(PATH_CONTENTS)} (N = existing #name.N# backups) x 4 spellings "
+                     f"{list(PATH_SPELLINGS)} (sub = existing sub-directory results/run1; rel = relative to the working directory); uninjected run of every input at all 24 places = {kinds.get('uninjected', 0)}; "
+                     f"the stage table x before/after x every input at {len(STAGE_PLACES)} places ({len(FEW_PLACES)} for the 3 PMMA inputs) = {kinds.get('stage', 0)}; "
+                     "sys.settrace injection: the exception raised at EVERY line event of the frame of gen_params / gen_coords / gen_seq and at the entry of EVERY frame called directly by it "
+                     f"(incl. generator resumptions, constructors, logger calls), events per input {per}, each at {len(TRACE_PLACES)} places ({len(FEW_PLACES)} for the PMMA inputs) = {kinds.get('trace', 0)}. "
+                     "Expectation by phase: before DeferredFileWriter.write is entered (gen_seq: before the `with open(outpath, 'w')` statement starts) the whole directory tree is byte-identical; "
+                     "after success: complete output (parsed; molecule name, residue / atom count of the input), previous file under exactly ONE new #name.N# next to it, older backups and inputs untouched; "
+                     "an injection after the write returned: untouched or the success state")
     never = sorted(f"{p}: {STAGES[p][1][s][0]}" for p, s in all_stages - reached_stages)
     res.bound = ("EXHAUSTIVE over the stage tables: gen_params (13 entry points: force-field reading, -seq parsing, graph from -seq, sequence-file reading, "
                  "dsDNA completion, mapping, link application, modifications, missing-link check, deferred open, citations, itp serialisation, flush) on "
@@ -1158,10 +1612,18 @@ def run_c20(ctx, res):
                  "reading, macro definition, graph generation, terminal renaming, labelling, node-link serialisation) on a two-macro sequence with connect, "
                  "terminal renaming and label; each stage x exception raised on entry / raised after the stage returned x output path absent / "
                  "present / present with an existing #name.1# backup, plus the uninjected run in each path state; whole scratch directory (listing and "
-                 f"bytes) compared before vs after.  Stages never reached by these inputs (evaluated, counted trivial): {never}")
+                 f"bytes) compared before vs after.  Stages never reached by these inputs (evaluated, counted trivial): {never}" + deep_text)
     res.rule = ("world = (program, input, stage, before/after, state of the output path); non-trivial iff the rebound entry point was actually "
                 "called (uninjected runs: the program completed)")
     res.exhaustive = True
+    if ctx.thorough:
+        res.rule += ("; thorough scenarios (program, input, injection, contents and spelling of the output path): non-trivial iff the injection point was reached "
+                     "before or after writing (uninjected: the program completed); injections while gen_seq has the output open are evaluated for side effects only and counted trivial")
+        res.assumptions += [
+            "sys.settrace injection: frames of finalizers (__del__) that the collector runs under the top-level frame are not injection points (the interpreter ignores exceptions raised in them)",
+            "a GROMACS-style backup is read as: exactly one NEW file #name.N# (N >= 1) in the directory of the output holding the previous bytes; which free N is taken is not demanded",
+            "a failure injected after DeferredFileWriter.write returned (gen_params logs warnings afterwards) may leave either the untouched state or the complete success state",
+        ]
     res.assumptions += [
         "every scenario starts from an empty DeferredFileWriter queue (true for the command-line programs; queue carry-over belongs to C13)",
         "gen_seq: json.dump runs after open(outpath, 'w') and is counted as writing, not as a stage before writing; a failure there would leave a truncated file",
